@@ -132,6 +132,12 @@ pub fn build_stack(sd: &StackD) -> Result<BuiltStack, String> {
         });
     }
     let mut vias = vec![];
+    // like the repository's sample stack, every stack lists a contact layer from the primitive layer up to metal 0
+    // ahead of its metal-to-metal via layers; nothing is ever drawn on it
+    {
+        let key = rawlayers.add(raw::Layer::from_pairs(49, &[(0, raw::LayerPurpose::Drawing)]).map_err(er)?);
+        vias.push(ViaLayer { name: "contact".into(), top: ViaTarget::Metal(0), bot: ViaTarget::Primitive, size: Xy::new(db(10), db(10)), raw: Some(key) });
+    }
     for (i, v) in sd.vias.iter().enumerate() {
         let key = rawlayers.add(raw::Layer::from_pairs(50 + i as i16, &[(0, raw::LayerPurpose::Drawing)]).map_err(er)?);
         via_keys.push(key);
